@@ -86,7 +86,7 @@ static void check_string(const char* str, unsigned coin, const char* cls, pv_rng
         PV_COUNT("evaluations", 1);
         int want = (st == POLYSEED_OK || st == POLYSEED_ERR_UNSUPPORTED) ? POLYSEED_ERR_MEMORY : st;
         if (sa != want) pv_violation("C09/precedence/auto", "[%s] allocator failing: auto %s, expected %s (unarmed result %s); '%s'", cls, pv_status_name(sa), pv_status_name(want), pv_status_name(st), pv_esc(str));
-        else { pv_countf(1, "armed.auto.%s", pv_status_name(sa)); if (st == POLYSEED_ERR_UNSUPPORTED) PV_COUNT("armed.memory_before_unsupported", 1); if (!consumed && st == POLYSEED_ERR_CHECKSUM) PV_COUNT("armed.checksum_before_memory", 1); }
+        else { pv_countf(1, "armed.auto.%s", pv_status_name(sa)); if (st == POLYSEED_ERR_UNSUPPORTED) PV_COUNT("armed.memory_before_unsupported", 1); if (st == POLYSEED_ERR_CHECKSUM) PV_COUNT("armed.checksum_before_memory", 1); if (!consumed) PV_COUNT("armed.failure_not_reached", 1); }
         if (sa == POLYSEED_OK) pv_api_free(a);
         int l = which >= 0 ? which : (int)pv_randn(rng, (uint32_t)pv_nlangs);
         if (pv_langs[l].lib) {
